@@ -202,7 +202,9 @@ import "go.lstv.dev/util/internal"
 //@   ensures [C12.skip] memberErr(result)
 //@   ensures [C12.cause] result != nil ==> errData(result, "origin") == 1 && decPos(d) == decNTok(d)
 //@   assigns decoder(d)
-//@   loop 0 invariant depth >= 1 && depth <= decPos(d)
+//@   loop 0 invariant depth >= 0 && depth <= decPos(d)
+//@   loop 0 candidate depth >= 1
+//@   loop 0 invariant depth == 0 ==> decAtKey(d)
 //@   loop 0 invariant decDepth(d) == 1 + depth
 //@   loop 0 invariant decInObj(d)
 //@   loop 0 invariant decPos(d) > old(decPos(d))
